@@ -3,6 +3,7 @@ import JenVerif.Tie.GuessAliasSrc
 import JenVerif.Tie.TextSrc
 import JenVerif.Tie.ImportsSrc
 import JenVerif.Tie.NullSrc
+import JenVerif.Tie.RenderSrc
 /-
   Tie 1b, summary: every function of jennifer's import registry, TRANSLATED from /repo's Go source
   on this run (Gen/SrcRegistry.lean), equals the hand-written model function that the property
